@@ -148,6 +148,45 @@ class Coll:
 def _path(j): return '/md/sub/md@%d.h5' % (j * W)
 
 
+_LIST_DRF = M.list_drf
+
+
+def _real_init():
+    """a reader object built by the REAL DigitalMetadataReader.__init__ on a concrete in-memory properties file (every attribute the
+    constructor sets exists, e.g. caches), before the harness points it at its symbolic channel"""
+    _os, _glob, _np0, _h5, _ld = M.os, M.glob, M.np, M.h5py, M.list_drf
+    M.list_drf = _LIST_DRF
+    class FOS:
+        class path:
+            @staticmethod
+            def join(*a): return '/'.join(a)
+        @staticmethod
+        def remove(p): pass
+        @staticmethod
+        def getpid(): return 1
+    root = Group()
+    root.attrs = _Attrs(subdir_cadence_secs=1000, file_cadence_secs=W, sample_rate_numerator=1, sample_rate_denominator=1, file_name='md',
+                        digital_metadata_version='2.5.0')
+    class FD:
+        def __getitem__(s, k): return []
+        def __iter__(s): return iter([])
+        def __len__(s): return 0
+    root.items_.append(('fields', FD()))
+    st0 = Store(); st0.files['/md/dmd_properties.h5'] = root
+    class G:
+        @staticmethod
+        def glob(p): return ['/md/dmd_properties.h5']
+    import numpy as _np
+    M.h5py = FakeH5(st0); M.os = FOS; M.glob = G; M.np = _np
+    r = M.DigitalMetadataReader.__new__(M.DigitalMetadataReader)
+    r._check_compatible_version = lambda: None
+    try:
+        M.DigitalMetadataReader.__init__(r, '/md')
+    finally:
+        M.os, M.glob, M.np, M.h5py, M.list_drf = _os, _glob, _np0, _h5, _ld
+    return r
+
+
 def _setup(samples):
     """channel holding `samples` (ascending, distinct), one group per sample, file j holds [j*W, (j+1)*W)"""
     st = Store()
@@ -156,7 +195,7 @@ def _setup(samples):
         p = _path(j)
         if p not in st.files: st.files[p] = Group()
         g = st.files[p].create_group(K(s)); g.create_dataset('v', data=('val', s))
-    r = M.DigitalMetadataReader.__new__(M.DigitalMetadataReader)
+    r = _real_init()
     r._metadata_dir = '/md'; r._file_cadence_secs = W; r._subdir_cadence_secs = 1000; r._file_name = 'md'
     M.h5py = FakeH5(st); M.np = NP; M.collections = Coll
     calls = []
@@ -370,31 +409,36 @@ def _write_witness(e: int, a: int) -> bool:
 
 # ------------------------------------------------------------------ C20: live visibility and non-destructive reading
 
-def _reader_sees_write(a: int, d1: int, d2: int) -> bool:
+def _reader_sees_write(a: int, d1: int, d2: int, pos: int) -> bool:
     """
-    pre: 0 <= a < 300 and 1 <= d1 < 300 and 1 <= d2 < 300 and a + d1 + d2 < 300
+    pre: 0 <= a < 300 and 1 <= d1 < 300 and 1 <= d2 < 300 and a + d1 + d2 < 300 and 0 <= pos <= 2
     post: _
     """
-    # a reader created BEFORE a write and one created after it both report the new sample as soon as write() returned: bounds include it,
-    # a range read returns it, read_latest returns the highest index (no cached state in the reader)
-    samples0 = [a, a + d1]
+    # a reader created BEFORE a write (and already queried) and one created after it both report the new sample as soon as write() returned:
+    # bounds include it, a range read returns it, read_latest returns the highest index (no cached state in the reader).  The new sample
+    # may lie before, between or after the two samples already there.
+    three = [a, a + d1, a + d1 + d2]
+    if pos == 0: new = three[0]; samples0 = [three[1], three[2]]
+    elif pos == 1: new = three[1]; samples0 = [three[0], three[2]]
+    else: new = three[2]; samples0 = [three[0], three[1]]
     r_old, st = _setup(samples0)
-    b0 = r_old.get_bounds()
+    b0 = r_old.get_bounds(); l0 = r_old.read_latest().keys()
     w, _st2 = _writer([])
     # writer and readers share the same store
     M.h5py = FakeH5(st); M.np = NPW; M.os = FakeOSW
     # the harness channel of the reader lives under /md/sub, the writer's under its own subdirectory: place the new sample where the reader looks
-    new = a + d1 + d2
     p = _path(0 if new < W else (1 if new < 2 * W else 2))
     if p not in st.files: st.files[p] = Group()
     g = st.files[p].create_group(K(new)); g.create_dataset('v', data=('val', new))
     M.np = NP
-    r_new = M.DigitalMetadataReader.__new__(M.DigitalMetadataReader)
-    r_new.__dict__.update(r_old.__dict__)
+    r_new = _real_init()
+    for k_, v_ in r_old.__dict__.items():
+        if k_ in ('_metadata_dir', '_file_cadence_secs', '_subdir_cadence_secs', '_file_name', '_get_file_list'): r_new.__dict__[k_] = v_
+    M.h5py = FakeH5(st); M.np = NP
     ok = True
     for r in (r_old, r_new):
-        ok = ok and r.get_bounds() == (a, new) and r.read(new, new).keys() == [new] and r.read_latest().keys() == [new]
-    return ok and b0 == (a, a + d1)
+        ok = ok and r.get_bounds() == (three[0], three[2]) and r.read(new, new).keys() == [new] and r.read_latest().keys() == [three[2]]
+    return ok and b0 == (samples0[0], samples0[1]) and l0 == [samples0[1]]
 
 
 class _Attrs(dict):
